@@ -47,6 +47,15 @@ func newFramerC39(w *wireC39) *Framer {
 	return &Framer{headerCompressionDisabled: true, w: w, headerBuf: new(bytes.Buffer), r: w}
 }
 
+// declaredOkC39: the length field of the (single) frame in w equals the bytes that follow the 8-byte
+// frame header - what any reader that honours the length field (the compressed-mode reader does) needs.
+func declaredOkC39(w *wireC39) bool {
+	if len(w.data) < 8 {
+		return false
+	}
+	return int(w.data[5])<<16|int(w.data[6])<<8|int(w.data[7]) == len(w.data)-8
+}
+
 func flagC39() bool { return vrt.Choose("flag", 2) == 1 }
 
 func streamIdC39() StreamId {
@@ -81,6 +90,7 @@ func VerifC39_rt_fixed() {
 		vrt.Assume(in.Status != 0)
 		err = f.WriteFrame(in)
 		vrt.Assert(err == nil, "C39/rt-write-ok")
+		vrt.Assert(declaredOkC39(w), "C39/rt-declared-length")
 		out, rerr := f.ReadFrame()
 		vrt.Assert(rerr == nil, "C39/rt-read-ok")
 		if rerr == nil {
@@ -104,6 +114,7 @@ func VerifC39_rt_fixed() {
 		}
 		err = f.WriteFrame(in)
 		vrt.Assert(err == nil, "C39/rt-write-ok")
+		vrt.Assert(declaredOkC39(w), "C39/rt-declared-length")
 		out, rerr := f.ReadFrame()
 		vrt.Assert(rerr == nil, "C39/rt-read-ok")
 		if rerr == nil {
@@ -122,6 +133,7 @@ func VerifC39_rt_fixed() {
 		vrt.Assume(in.Id != 0)
 		err = f.WriteFrame(in)
 		vrt.Assert(err == nil, "C39/rt-write-ok")
+		vrt.Assert(declaredOkC39(w), "C39/rt-declared-length")
 		out, rerr := f.ReadFrame()
 		vrt.Assert(rerr == nil, "C39/rt-read-ok")
 		if rerr == nil {
@@ -136,6 +148,7 @@ func VerifC39_rt_fixed() {
 		vrt.Assume(in.LastGoodStreamId&0x80000000 == 0)
 		err = f.WriteFrame(in)
 		vrt.Assert(err == nil, "C39/rt-write-ok")
+		vrt.Assert(declaredOkC39(w), "C39/rt-declared-length")
 		out, rerr := f.ReadFrame()
 		vrt.Assert(rerr == nil, "C39/rt-read-ok")
 		if rerr == nil {
@@ -150,6 +163,7 @@ func VerifC39_rt_fixed() {
 		vrt.Assume(in.StreamId&0x80000000 == 0 && in.DeltaWindowSize&0x80000000 == 0)
 		err = f.WriteFrame(in)
 		vrt.Assert(err == nil, "C39/rt-write-ok")
+		vrt.Assert(declaredOkC39(w), "C39/rt-declared-length")
 		out, rerr := f.ReadFrame()
 		vrt.Assert(rerr == nil, "C39/rt-read-ok")
 		if rerr == nil {
@@ -164,6 +178,7 @@ func VerifC39_rt_fixed() {
 		in.Data = vrt.Bytes("data", vrt.Range("datalen", 0, vrt.Param("D", 3)))
 		err = f.WriteFrame(in)
 		vrt.Assert(err == nil, "C39/rt-write-ok")
+		vrt.Assert(declaredOkC39(w), "C39/rt-declared-length")
 		out, rerr := f.ReadFrame()
 		vrt.Assert(rerr == nil, "C39/rt-read-ok")
 		if rerr == nil {
@@ -260,6 +275,7 @@ func VerifC39_rt_headers() {
 		in.CFHeader.Flags = ControlFlags(vrt.Byte("flags"))
 		werr = f.WriteFrame(in)
 		vrt.Assert(werr == nil, "C39/rth-write-ok")
+		vrt.Assert(declaredOkC39(w), "C39/rth-declared-length")
 		out, rerr := f.ReadFrame()
 		if rerr != nil {
 			// the only legitimate refusals: a forbidden request header name, an over-long :path
@@ -278,6 +294,7 @@ func VerifC39_rt_headers() {
 		in := &SynReplyFrame{StreamId: sid, Headers: hdr}
 		werr = f.WriteFrame(in)
 		vrt.Assert(werr == nil, "C39/rth-write-ok")
+		vrt.Assert(declaredOkC39(w), "C39/rth-declared-length")
 		out, rerr := f.ReadFrame()
 		if rerr != nil {
 			vrt.Assert(invalidRespHeaders[http.CanonicalHeaderKey(lowerASCIIC39(name))], "C39/rth-read-ok")
@@ -294,6 +311,7 @@ func VerifC39_rt_headers() {
 		in := &HeadersFrame{StreamId: sid, Headers: hdr}
 		werr = f.WriteFrame(in)
 		vrt.Assert(werr == nil, "C39/rth-write-ok")
+		vrt.Assert(declaredOkC39(w), "C39/rth-declared-length")
 		out, rerr := f.ReadFrame()
 		if rerr != nil {
 			cn := http.CanonicalHeaderKey(lowerASCIIC39(name))
